@@ -102,6 +102,9 @@ def check(seed):
                 d=np.diff(ang)*sgn
                 if (d<-1e-7).any(): issues.append(('C10 not monotone in direction',shape,seed))
                 sweep=abs(ang[-1]-ang[0])
+                if shape in('arc','circle','helix','thread') and sweep>1e-6:
+                    zlin=P[0,2]+(P[-1,2]-P[0,2])*np.abs(ang-ang[0])/sweep
+                    if np.abs(P[:,2]-zlin).max()>1e-5*max(1,abs(P[-1,2]-P[0,2])): issues.append(('C10 z not linear in angle',shape,seed,float(np.abs(P[:,2]-zlin).max())))
                 if shape=='circle' and abs(sweep-2*math.pi)>1e-5: issues.append(('C10 circle sweep',shape,seed,sweep))
                 if shape in('helix','spiral') and not (2*math.pi*(a['turns']-1)-1e-6 < sweep <= 2*math.pi*a['turns']+1e-6): issues.append(('C10 turns',shape,seed,sweep,a['turns']))
         if shape=='arc_radius':
